@@ -462,7 +462,7 @@ theorem alt_localStep (M : Machine σ π Out) (k : Key) (l : Local σ Out) (ko :
     cases hs : l.sess with
     | none => simp [localStep, hs, h]
     | some se =>
-      cases he : M.expired t se.st
+      cases he : M.expired t se
       · simp [localStep, hs, he, h]
       · simp [localStep, hs, he, altFrom_append, h, altFrom]
   | drop t i =>
